@@ -1,6 +1,238 @@
+(* C13 - base datatype values: acceptance matches HL7 syntax and text is preserved.
+   Theorems only; proofs live in Proofs/DatatypesFacts.v (the regex matcher, strptime on exact-length
+   input), Proofs/DatatypesDate.v (DT, TM, DTM) and Proofs/DatatypesNum.v (NM, SI, the factory).
+   impl_X = what hl7apy computes (Model/Datatypes.v), spec_X = the HL7 grammar; the offset grid, the
+   allowed formats and the maximum lengths are the generated Gen/Params.v.
+   Model domain: ASCII strings (NM: exponents of at most 18 digits). *)
 From Coq Require Import List Bool NArith ZArith Init.Byte.
-From HL7 Require Import Lib.Str Model.Ec Model.Result Model.Datatypes Proofs.DatatypesFacts Gen.Params.
+From HL7 Require Import Lib.Str Model.Ec Model.Result Model.Escape Model.Datatypes
+  Proofs.EscapeFacts Proofs.DatatypesFacts Proofs.DatatypesDate Proofs.DatatypesNum Gen.Params.
 Import ListNotations.
 Open Scope bs_scope.
-Example C13_stub : impl_DT ("2020" : bs) = Ok (unbs "2020").
+
+(* ---- obligations on the generated parameters (finite, decided by the kernel) ---- *)
+
+Definition Nlist_eqb (a b : list N) : bool := leqb N.eqb a b.
+Definition upto (n : nat) : list N := map N.of_nat (seq 0 n).
+
+(* the offsets utils._split_offset recognises are the documented grid +0000..+1459, -0000..-1259 *)
+Theorem C13_params_offset_grid :
+  offset_grid_is_product && Nlist_eqb offset_plus_hours (upto 15) && Nlist_eqb offset_plus_minutes (upto 60) &&
+  Nlist_eqb offset_minus_hours (upto 13) && Nlist_eqb offset_minus_minutes (upto 60) = true.
 Proof. vm_compute. reflexivity. Qed.
+
+(* every format utils.py can produce is an allowed out_format of the class *)
+Theorem C13_params_formats :
+  forallb (fun f => smem (fmt_str f) dt_formats) [[TY]; [TY; Tm]; [TY; Tm; Td]] &&
+  forallb (fun f => smem (fmt_str f) tm_formats) [[TH]; [TH; TMi]; [TH; TMi; TS]; [TH; TMi; TS; Tdot; Tf]] &&
+  forallb (fun f => smem (fmt_str f) dtm_formats)
+    ([[TY]; [TY; Tm]; [TY; Tm; Td]] ++
+     map (app [TY; Tm; Td]) [[TH]; [TH; TMi]; [TH; TMi; TS]; [TH; TMi; TS; Tdot; Tf]]) = true.
+Proof. vm_compute. reflexivity. Qed.
+
+(* maximum lengths: NM 16 and SI 4 in every version, none for DT / TM / DTM *)
+Definition row_ok (r : str * dtkind * option Z) : bool :=
+  match r with
+  | (_, KNM, ml) => match ml with Some 16%Z => true | _ => false end
+  | (_, KSI, ml) => match ml with Some 4%Z => true | _ => false end
+  | (_, KDT, ml) | (_, KTM, ml) | (_, KDTM, ml) => match ml with None => true | _ => false end
+  | _ => true
+  end.
+Theorem C13_params_maxlen :
+  forallb (fun vr : str * list (str * dtkind * option Z) => forallb row_ok (snd vr)) base_datatype_table = true.
+Proof. vm_compute. reflexivity. Qed.
+
+(* every version has the five datatypes it should (DT NM SI everywhere, TM from 2.2, DTM from 2.5) and an ST
+   class of a known escape family for the TOLERANT fall-back *)
+Theorem C13_params_st : table_has_st = true.
+Proof. vm_compute. reflexivity. Qed.
+
+(* ---- DT ---- *)
+
+Definition C13_accept_DT_statement : Prop := forall s, accepts (impl_DT s) = spec_DT s.
+
+(* refuted on the faithful model (finding F10): strptime's blank-padded day *)
+Theorem C13_accept_DT_refuted : ~ C13_accept_DT_statement.
+Proof. intros H. specialize (H ("202011 1" : bs)). vm_compute in H. discriminate. Qed.
+Print Assumptions C13_accept_DT_refuted.
+
+(* what does hold, for every string: the accepted set is exactly the HL7 dates plus YYYYMM-blank-D *)
+Theorem C13_accept_DT_partial : forall s, accepts (impl_DT s) = spec_DT s || dt_space_day s.
+Proof. exact accept_DT_exact. Qed.
+Print Assumptions C13_accept_DT_partial.
+
+Theorem C13_roundtrip_DT : forall s e,
+  impl_DT s = Ok e -> spec_DT s = true -> year_ge_1000 s = true -> e = s.
+Proof. exact roundtrip_DT. Qed.
+Print Assumptions C13_roundtrip_DT.
+
+(* the defect family re-encodes with a zero-padded day *)
+Theorem C13_DT_defect_reencodes : forall s e,
+  impl_DT s = Ok e -> dt_space_day s = true -> year_ge_1000 s = true -> e = fix_space_day s.
+Proof. exact space_day_reencodes. Qed.
+Print Assumptions C13_DT_defect_reencodes.
+
+(* utils.check_date is the acceptance test *)
+Theorem C13_check_date : forall s, check_date s = Ok (accepts (impl_DT s)).
+Proof.
+  intros s. unfold check_date, check_of, impl_DT.
+  destruct (get_date_info s) as [[v f]|x] eqn:E.
+  - cbn [bind fst snd]. unfold get_date_info, date_format in E.
+    assert (Hf : dt_ctor dt_formats f = Ok tt).
+    { destruct (length s =? 4); [|destruct (length s =? 6); [|destruct (length s =? 8); [|discriminate]]];
+        cbn [bind] in E; destruct (strptime s _); try discriminate; injection E as _ <-; reflexivity. }
+    now rewrite Hf.
+  - assert (impl_DT s = Err x) as Hx by (unfold impl_DT; now rewrite E).
+    rewrite (DT_only_valueerror _ _ Hx). reflexivity.
+Qed.
+Print Assumptions C13_check_date.
+
+(* ---- TM ---- *)
+
+Definition C13_accept_TM_statement : Prop := forall s, accepts (impl_TM s) = spec_TM s.
+
+(* refuted (finding F10): str.replace removes every copy of the offset *)
+Theorem C13_accept_TM_refuted : ~ C13_accept_TM_statement.
+Proof. intros H. specialize (H ("12+0100+0100" : bs)). vm_compute in H. discriminate. Qed.
+Print Assumptions C13_accept_TM_refuted.
+
+(* exactly: HH[MM[SS[.S{1,4}]]][+/-ZZZZ] on the offset grid, plus the values in which the final offset
+   occurs more than once and a well-formed time is left when every copy is removed *)
+Theorem C13_accept_TM_partial : forall s, accepts (impl_TM s) = spec_TM s || offset_defect spec_time s.
+Proof. exact accept_TM_exact. Qed.
+Print Assumptions C13_accept_TM_partial.
+
+(* fraction digits and offset are preserved *)
+Theorem C13_roundtrip_TM : forall s e, impl_TM s = Ok e -> spec_TM s = true -> e = s.
+Proof. exact roundtrip_TM. Qed.
+Print Assumptions C13_roundtrip_TM.
+
+Theorem C13_TM_defect_reencodes : forall s e,
+  impl_TM s = Ok e -> offset_defect spec_time s = true -> e = dedup_offset s.
+Proof. exact TM_defect_reencodes. Qed.
+Print Assumptions C13_TM_defect_reencodes.
+
+(* the regex of utils._split_offset recognises exactly the grid of Gen/Params.v *)
+Theorem C13_offset_regex_is_grid : forall o, off_match o = spec_offset o.
+Proof. exact off_match_spec. Qed.
+Print Assumptions C13_offset_regex_is_grid.
+
+(* ---- SI ---- *)
+
+Definition C13_accept_SI_statement : Prop :=
+  forall s, s <> [] -> accepts (impl_SI true (Some 4%Z) s) = spec_SI s && negb (too_long (Some 4%Z) (canon_digits s)).
+
+(* refuted (finding F10): int() takes a sign, blanks, underscores *)
+Theorem C13_accept_SI_refuted : ~ C13_accept_SI_statement.
+Proof. intros H. specialize (H ("+1" : bs)). vm_compute in H. assert ([x2b; x31] <> @nil byte) as N by discriminate.
+  specialize (H N). discriminate. Qed.
+Print Assumptions C13_accept_SI_refuted.
+
+(* completeness with the length test, and soundness up to the explicit defect family *)
+Theorem C13_accept_SI_partial : forall strict ml s,
+  (spec_SI s = true ->
+     impl_SI strict ml s = if strict && too_long ml (canon_digits s) then Err (HL7 EMaxLengthReached)
+                           else Ok (canon_digits s)) /\
+  (s <> [] -> accepts (impl_SI strict ml s) = true ->
+     spec_SI s = true \/ (si_decorated s = true /\ existsb si_deco s = true)).
+Proof.
+  intros strict ml s. split; [apply impl_SI_spec|].
+  intros Hs Ha. unfold impl_SI in Ha. destruct s as [|c s]; [congruence|]. cbn [nilb] in Ha.
+  destruct (int_parse (c :: s)) as [o|] eqn:E; [|discriminate].
+  destruct (spec_SI (c :: s)) eqn:Sp; [now left|right].
+  destruct (int_parse_sound _ _ E) as [H|H]; [congruence|].
+  split; auto. unfold si_decorated. now rewrite Sp, E.
+Qed.
+Print Assumptions C13_accept_SI_partial.
+
+(* the same number always, the same text for a plain numeral *)
+Theorem C13_roundtrip_SI : forall strict ml s e,
+  spec_SI s = true -> impl_SI strict ml s = Ok e ->
+  digits_val e = digits_val s /\ (plain_SI s = true -> e = s).
+Proof.
+  intros strict ml s e Hs Hi. rewrite (impl_SI_spec strict ml s Hs) in Hi.
+  destruct (strict && too_long ml (canon_digits s)); [discriminate|]. injection Hi as <-.
+  split; [|apply canon_plain]. apply canon_same_number. unfold spec_SI in Hs.
+  apply andb_prop in Hs. tauto.
+Qed.
+Print Assumptions C13_roundtrip_SI.
+
+(* ---- both levels, maximum length ---- *)
+
+(* TOLERANT never rejects; a value STRICT rejects with ValueError falls back to ST, whose encoding is
+   escape(s) *)
+Theorem C13_tolerant_total : forall v rows name k ml e s,
+  slookup v base_datatype_table = Some rows -> row_lookup name rows = Some (k, ml) ->
+  In k [KDT; KTM; KNM; KSI] ->
+  (exists t, impl_kind k false ml s = Ok t /\ factory v TOLERANT name e s = Ok (false, t)) \/
+  (exists p, st_family rows = Some p /\ factory v STRICT name e s = Err PyValueError /\
+             factory v TOLERANT name e s = Ok (true, escape p e s)).
+Proof.
+  intros v rows name k ml e s Hv Hn Hk. apply factory_tolerant; auto using C13_params_st.
+  cbn in Hk. destruct Hk as [<-|[<-|[<-|[<-|[]]]]];
+    auto using kind_safe_DT, kind_safe_TM, kind_safe_NM, kind_safe_SI.
+Qed.
+Print Assumptions C13_tolerant_total.
+
+(* ... and escape(s) = s for text of ordinary characters and well-formed escape sequences: verbatim *)
+Theorem C13_tolerant_verbatim : forall p e s,
+  In p esc_families -> ec_valid p e = true -> tok p e s = true ->
+  (forall d, In d (escaped_delims p e) -> bmem d s = false) -> escape p e s = s.
+Proof.
+  intros p e s Hp He. apply escape_tokenised_id; auto.
+  assert (F : forallb letters_ok esc_families = true) by (vm_compute; reflexivity).
+  exact (forallb_In _ _ _ F Hp).
+Qed.
+Print Assumptions C13_tolerant_verbatim.
+
+(* a value STRICT accepts is the same object under TOLERANT *)
+Theorem C13_strict_subset_tolerant : forall v name e s t fb,
+  factory v STRICT name e s = Ok (fb, t) -> fb = false /\ factory v TOLERANT name e s = Ok (false, t).
+Proof. exact factory_strict_ok. Qed.
+Print Assumptions C13_strict_subset_tolerant.
+
+(* STRICT: a formatted value longer than max_length is rejected with MaxLengthReached (and only then);
+   TOLERANT builds it *)
+Theorem C13_maxlength : forall ml s,
+  s <> [] ->
+  (forall d, decimal_parse s = Some d ->
+     impl_NM true ml s = (if too_long ml (decimal_str d) then Err (HL7 EMaxLengthReached) else Ok (decimal_str d)) /\
+     impl_NM false ml s = Ok (decimal_str d)) /\
+  (forall o, int_parse s = Some o ->
+     impl_SI true ml s = (if too_long ml o then Err (HL7 EMaxLengthReached) else Ok o) /\
+     impl_SI false ml s = Ok o) /\
+  (forall t, impl_NM true ml s = Ok t -> too_long ml t = false) /\
+  (forall t, impl_SI true ml s = Ok t -> too_long ml t = false).
+Proof.
+  intros ml s Hs. repeat split.
+  - now rewrite (impl_NM_parsed true ml s d Hs H).
+  - now rewrite (impl_NM_parsed false ml s d Hs H).
+  - now rewrite (impl_SI_parsed true ml s o Hs H).
+  - now rewrite (impl_SI_parsed false ml s o Hs H).
+  - intros t. now apply impl_NM_accepted_short.
+  - intros t. now apply impl_SI_accepted_short.
+Qed.
+Print Assumptions C13_maxlength.
+
+(* ---- non-vacuity ---- *)
+Example C13_ex_DT : impl_DT ("20240229" : bs) = Ok (unbs "20240229") /\ spec_DT ("20240229" : bs) = true /\
+                    impl_DT ("20230229" : bs) = Err PyValueError /\ spec_DT ("20230229" : bs) = false.
+Proof. vm_compute. auto. Qed.
+Example C13_ex_DT_defect : impl_DT ("202011 1" : bs) = Ok (unbs "20201101") /\ dt_space_day ("202011 1" : bs) = true.
+Proof. vm_compute. auto. Qed.
+Example C13_ex_TM : impl_TM ("235959.1234-1200" : bs) = Ok (unbs "235959.1234-1200") /\
+                    spec_TM ("235959.1234-1200" : bs) = true /\ spec_TM ("12+1500" : bs) = false /\
+                    impl_TM ("12+1500" : bs) = Err PyValueError.
+Proof. vm_compute. auto. Qed.
+Example C13_ex_TM_defect : impl_TM ("12+0100+0100" : bs) = Ok (unbs "12+0100") /\
+                           offset_defect spec_time ("12+0100+0100" : bs) = true.
+Proof. vm_compute. auto. Qed.
+Example C13_ex_SI : impl_SI true (Some 4%Z) ("0042" : bs) = Ok (unbs "42") /\
+                    impl_SI true (Some 4%Z) ("12345" : bs) = Err (HL7 EMaxLengthReached) /\
+                    impl_SI false (Some 4%Z) ("12345" : bs) = Ok (unbs "12345") /\
+                    impl_SI true (Some 4%Z) ("-1" : bs) = Ok (unbs "-1").
+Proof. vm_compute. auto. Qed.
+Example C13_ex_factory :
+  factory "2.5" TOLERANT "DT" default_ec ("2020|13" : bs) = Ok (true, unbs "2020\F\13") /\
+  factory "2.5" STRICT "DT" default_ec ("2020|13" : bs) = Err PyValueError.
+Proof. vm_compute. auto. Qed.
